@@ -461,6 +461,10 @@ fn eval_c21(case: &Case, acc: &Acc) -> Vec<Violation> {
     acc.outcome("accepted");
     acc.eval(1);
     acc.distinct(&case.par);
+    if acc.want_sample() && (case.par.contains("?=") || case.par.contains("%scanner")) {
+        acc.sample(json!({"grammar": case.par.replace('\n', " "), "compared": "generated source tables / export model / analysis results"}));
+    }
+    acc.fallback(|| json!({"grammar": case.par.replace('\n', " ")}));
     let short = case.par.replace('\n', " ");
     let bound: Bound = match bind(&g.parser_src) {
         Ok(b) => b,
